@@ -208,6 +208,27 @@ def setGeometry (st : St) (c : ObjId) (g : HS) : Res :=
   | (st1, none) => (st1.updCell c (fun cs => { cs with geom := some g' }), none)
   | r => r
 
+/-- what `__iand__` hands to the `right` setter: the object the recursive call returned -/
+def retOr (r1 : HS) : Option HS → HS
+  | none => r1
+  | some n => n
+
+/-- the end of half_space.py:HalfSpace.__iand__ / __ior__ on a node (`left = l`, `_cell = p`) whose right
+    side `r1` is not a leaf: `self.right = newRight` (setter with validator), then
+    `self._add_new_children_to_cell(other)`. -/
+def iopTail (u0 : Bool) (l : HS) (p : Option ObjId) (other : HS) (st1 : St) (r1 newRight : HS) :
+    Res × HS × Option HS :=
+  match linkChild st1 p newRight with
+  | ((st2, some e), _) =>
+    -- the setter raised: `self.right` keeps the old object (mutated in place, `_cell` pointers set)
+    ((st2, some e), .bin u0 l (match p with | some c => r1.setCell c | none => r1) p, none)
+  | ((st2, none), r2) =>
+    match p with
+    | none => ((st2, none), .bin u0 l r2 p, none)
+    | some c =>
+      match addChildren st2 c other with
+      | (st3, e) => ((st3, e), .bin u0 l r2 p, none)
+
 /-- half_space.py:HalfSpace.__iand__ / __ior__ called on the (sub)tree `self`.
     Result: state and error, the tree `self` as mutated in place, and the returned object
     (`none` = `self` itself was returned, `some n` = a new object `n`). -/
@@ -226,18 +247,7 @@ def iop (u : Bool) (st : St) : HS → HS → Res × HS × Option HS
       -- self.right &= other ; self._add_new_children_to_cell(other)
       match iop u st r other with
       | ((st1, some e), r1, _) => ((st1, some e), .bin u0 l r1 p, none)
-      | ((st1, none), r1, ret) =>
-        let newRight := match ret with | none => r1 | some n => n
-        match linkChild st1 p newRight with
-        | ((st2, some e), _) =>
-          -- the setter raised: `self.right` keeps the old object (mutated in place, `_cell` pointers set)
-          ((st2, some e), .bin u0 l (match p with | some c => r1.setCell c | none => r1) p, none)
-        | ((st2, none), r2) =>
-          match p with
-          | none => ((st2, none), .bin u0 l r2 p, none)
-          | some c =>
-            match addChildren st2 c other with
-            | (st3, e) => ((st3, e), .bin u0 l r2 p, none)
+      | ((st1, none), r1, ret) => iopTail u0 l p other st1 r1 (retOr r1 ret)
 
 /-- `cell.geometry &= other` / `|= other`: `__iand__` on the geometry, then the geometry setter. -/
 def iopCell (u : Bool) (st : St) (c : ObjId) (other : HS) : Res :=
